@@ -69,11 +69,10 @@ fn block_on<F: Future>(f: F) -> F::Output {
     }
 }
 
-fn parse_pom(xml: &str, what: &str) -> MavenPom {
-    match serde_xml_rs::from_str::<MavenPom>(xml) {
-        Ok(p) => p,
-        Err(e) => { eprintln!("HARNESS-ERROR C19 generated POM does not parse as XML ({what}): {e}\n{xml}"); std::process::exit(3) }
-    }
+/// XML text -> the repository's `MavenPom` (its serde model is what decides which POM files the resolver can be given at all: a
+/// well-formed POM of the supported subset that does not deserialize is a refusal of the universe, judged like any other refusal)
+fn parse_pom(xml: &str, what: &str) -> Result<MavenPom, String> {
+    serde_xml_rs::from_str::<MavenPom>(xml).map_err(|e| format!("the POM at {what} does not deserialize: {e}"))
 }
 
 struct RealRun { result: Result<Vec<Found>, String>, root_cause: String, text_problems: Vec<(String, Value)>, requests: usize, misses: usize }
@@ -81,7 +80,13 @@ struct RealRun { result: Result<Vec<Found>, String>, root_cause: String, text_pr
 /// Runs the real resolver on the universe.
 fn run_real(u: &Universe, yields: u32) -> Result<RealRun, PanicInfo> {
     let mut files = HashMap::new();
-    for r in &u.repos { for (g, p) in &r.poms { let url = pom_url(&r.url, g); files.insert(url.clone(), parse_pom(&p.to_xml(), &url)); } }
+    for r in &u.repos { for (g, p) in &r.poms {
+        let url = pom_url(&r.url, g);
+        match parse_pom(&p.to_xml(), &url) {
+            Ok(pom) => { files.insert(url.clone(), pom); }
+            Err(e) => { let cause = e.rsplit(": ").next().unwrap_or(&e).to_string(); return Ok(RealRun { result: Err(e), root_cause: format!("POM does not deserialize: {cause}"), text_problems: vec![], requests: 0, misses: 0 }); }
+        }
+    } }
     let dl = MemDownloader { files, log: Mutex::new(vec![]), yields };
     let repos: Vec<RealRepo> = u.repos.iter().map(|r| RealRepo::new(&r.name, &r.url)).collect();
     let roots: Vec<(MavenCoord, DependencyScope)> = u.roots.iter().map(|(c, s)| (to_real_coord(c), to_real_scope(*s))).collect();
